@@ -861,14 +861,26 @@ def run(index: RepoIndex, rep) -> None:
                    boolean=d is T)
     fe = index.func(FACTORY, 'factory_env_from_data')
     w = walk_function(fe.node)
-    txt = src(fe.node)
-    rep.check("factory_reward_function({'name': 'reduce_sum', 'reward_functions': "
-              "data['reward_functions']})" in txt, 'C12.R4', FACTORY, 'factory_env_from_data',
+    gwc = [e_ for e_ in w.events if e_.kind == 'return' and isinstance(e_.value, ast.Call)
+           and src(e_.value.func) == 'GridWorld']
+    built = [w.expand(a_) for e_ in gwc for a_ in list(e_.value.args) +
+             [k.value for k in e_.value.keywords]]
+
+    def _composite(fname: str, red: str, plural: str) -> bool:
+        for x in built:
+            if isinstance(x, ast.Call) and src(x.func) == fname and len(x.args) == 1 and \
+                    isinstance(x.args[0], ast.Dict) and not x.keywords:
+                dd = {src(k): src(v) for k, v in zip(x.args[0].keys, x.args[0].values)}
+                if dd == {"'name'": f"'{red}'", f"'{plural}'": f"data['{plural}']"}:
+                    return True
+        return False
+    rep.check(_composite('factory_reward_function', 'reduce_sum', 'reward_functions'), 'C12.R4',
+              FACTORY, 'factory_env_from_data',
               fe.node.lineno, 'reward_function = ...',
               'the YAML factory does not sum the listed reward functions (reduce_sum)',
               'yaml rewards summed')
-    rep.check("factory_transition_function({'name': 'chain', 'transition_functions': "
-              "data['transition_functions']})" in txt, 'C12.R4', FACTORY,
+    rep.check(_composite('factory_transition_function', 'chain', 'transition_functions'),
+              'C12.R4', FACTORY,
               'factory_env_from_data', fe.node.lineno, 'transition_function = ...',
               'the YAML factory does not chain the listed transition functions',
               'yaml transitions chained')
